@@ -10,13 +10,13 @@ open Std
 namespace DD
 
 /-- the ledger after taking one more reference to `u` -/
-def extInc (ext : Nat → Nat) (u : Int) : Nat → Nat := fun x => if x = u.natAbs then ext x + 1 else ext x
+def mExtInc (ext : Nat → Nat) (u : Int) : Nat → Nat := fun x => if x = u.natAbs then ext x + 1 else ext x
 /-- the ledger after releasing one reference to `u` -/
-def extDec (ext : Nat → Nat) (u : Int) : Nat → Nat := fun x => if x = u.natAbs then ext x - 1 else ext x
+def mExtDec (ext : Nat → Nat) (u : Int) : Nat → Nat := fun x => if x = u.natAbs then ext x - 1 else ext x
 
 theorem mIncref_exact (u : Int) (m : MddMgr) (ext : Nat → Nat) (hu : m.tbl.Mem u)
-    (hx : RefExact m ext) (m' : MddMgr) (hi : mIncref u m = (.ok (), m')) :
-    RefExact m' (extInc ext u) := by
+    (hx : MRefExact m ext) (m' : MddMgr) (hi : mIncref u m = (.ok (), m')) :
+    MRefExact m' (mExtInc ext u) := by
   unfold mIncref at hi
   split at hi
   · simp at hi
@@ -28,9 +28,9 @@ theorem mIncref_exact (u : Int) (m : MddMgr) (ext : Nat → Nat) (hu : m.tbl.Mem
     simp only [Option.some.injEq] at hcnt
     constructor
     · intro x hxm
-      show (m.ref.insert u.natAbs (c + 1))[x]? = some (m.tbl.indeg (m.max + 1) x + extInc ext u x)
+      show (m.ref.insert u.natAbs (c + 1))[x]? = some (m.tbl.indeg (m.max + 1) x + mExtInc ext u x)
       rw [natmap_getElem?_insert]
-      unfold extInc
+      unfold mExtInc
       by_cases hux : u.natAbs = x
       · subst hux
         simp only [if_true, Option.some.injEq]
@@ -39,7 +39,7 @@ theorem mIncref_exact (u : Int) (m : MddMgr) (ext : Nat → Nat) (hu : m.tbl.Mem
         simp only [hux, this, if_false]
         exact hx.cnt x hxm
     · intro x hx1 hxn
-      unfold extInc
+      unfold mExtInc
       have hne : ¬ x = u.natAbs := by
         intro e; subst e
         rcases hu with h1 | h1
@@ -51,8 +51,8 @@ theorem mIncref_exact (u : Int) (m : MddMgr) (ext : Nat → Nat) (hu : m.tbl.Mem
 
 theorem mDecref_exact (u : Int) (m : MddMgr) (ext : Nat → Nat) (hu : m.tbl.Mem u)
     (hheld : 0 < ext u.natAbs)
-    (hx : RefExact m ext) (m' : MddMgr) (hi : mDecref u m = (.ok (), m')) :
-    RefExact m' (extDec ext u) := by
+    (hx : MRefExact m ext) (m' : MddMgr) (hi : mDecref u m = (.ok (), m')) :
+    MRefExact m' (mExtDec ext u) := by
   unfold mDecref at hi
   split at hi
   · simp at hi
@@ -66,9 +66,9 @@ theorem mDecref_exact (u : Int) (m : MddMgr) (ext : Nat → Nat) (hu : m.tbl.Mem
       subst hi
       constructor
       · intro x hxm
-        show (m.ref.insert u.natAbs (c - 1))[x]? = some (m.tbl.indeg (m.max + 1) x + extDec ext u x)
+        show (m.ref.insert u.natAbs (c - 1))[x]? = some (m.tbl.indeg (m.max + 1) x + mExtDec ext u x)
         rw [natmap_getElem?_insert]
-        unfold extDec
+        unfold mExtDec
         by_cases hux : u.natAbs = x
         · subst hux
           simp only [if_true, Option.some.injEq]
@@ -77,7 +77,7 @@ theorem mDecref_exact (u : Int) (m : MddMgr) (ext : Nat → Nat) (hu : m.tbl.Mem
           simp only [hux, this, if_false]
           exact hx.cnt x hxm
       · intro x hx1 hxn
-        unfold extDec
+        unfold mExtDec
         have hne : ¬ x = u.natAbs := by
           intro e; subst e
           rcases hu with h1 | h1
@@ -88,7 +88,7 @@ theorem mDecref_exact (u : Int) (m : MddMgr) (ext : Nat → Nat) (hu : m.tbl.Mem
         exact hx.extZero x hx1 hxn
 
 /-- a fresh `MDD(dvars)` has exact counts for the empty ledger -/
-theorem RefExact.init (dv : List MVar) : RefExact (MddMgr.new (some dv)) (fun _ => 0) := by
+theorem MRefExact.init (dv : List MVar) : MRefExact (MddMgr.new (some dv)) (fun _ => 0) := by
   constructor
   · intro u hu
     have hnone : ∀ p, (MddMgr.new (some dv)).tbl.node? p = none := by
@@ -116,19 +116,19 @@ inductive MReach (dv : List MVar) : MddMgr → (Nat → Nat) → Prop
       MReach dv m ext → docConn op = some c →
       mApply op u v w m = (.ok r, m') → MReach dv m' ext
   | incref {m ext} (u : Int) (m' : MddMgr) :
-      MReach dv m ext → m.tbl.Mem u → mIncref u m = (.ok (), m') → MReach dv m' (extInc ext u)
+      MReach dv m ext → m.tbl.Mem u → mIncref u m = (.ok (), m') → MReach dv m' (mExtInc ext u)
   | decref {m ext} (u : Int) (m' : MddMgr) :
       MReach dv m ext → m.tbl.Mem u → 0 < ext u.natAbs →
-      mDecref u m = (.ok (), m') → MReach dv m' (extDec ext u)
+      mDecref u m = (.ok (), m') → MReach dv m' (mExtDec ext u)
   | gc {m ext} (roots : Option (List Int)) (m' : MddMgr) :
       MReach dv m ext → mCollectGarbage roots m = (.ok (), m') → MReach dv m' ext
 
 /-- every reachable state satisfies the invariant, has exact counts, and the variables given
 at construction -/
 theorem MReach.inv {dv : List MVar} {m : MddMgr} {ext : Nat → Nat} (h : MReach dv m ext) :
-    MInv m ∧ RefExact m ext ∧ m.tbl.vars = dv := by
+    MInv m ∧ MRefExact m ext ∧ m.tbl.vars = dv := by
   induction h with
-  | init => exact ⟨MInv.init dv, RefExact.init dv, rfl⟩
+  | init => exact ⟨MInv.init dv, MRefExact.init dv, rfl⟩
   | foa i nodes r m' _ hlt hr ih =>
     obtain ⟨hi, hx, hv⟩ := ih
     unfold mFindOrAdd at hr
